@@ -6,7 +6,7 @@ import itertools
 from fractions import Fraction
 
 from ..absint import FuncV, Interp, ObjV, VecV, State
-from ..forms import Const, Form, TupleV, fpow, mk_fn
+from ..forms import Const, Form, TupleV, fpow, mk_attr, mk_fn
 from ..rules import PI, S, find_raise_guards, names_in, check_late_binding
 from ..srcmodel import src_of, norm_src
 
@@ -445,18 +445,49 @@ def rule_error_probabilities(ctx):
         if modn == "ook":
             ls = [r for r in it.calls if r.callee == "numpy.linspace"]
             r = ls[0].result if len(ls) == 1 else None
-            want = mk_fn("min", [ook_pe(off, on, sv[0], sv[1], r)]) if r is not None else None
-            ok = want is not None and v == want and ls[0].args[0] == off and ls[0].args[1] == on
+            ok = r is not None and ls[0].args[0] == off and ls[0].args[1] == on and _is_grid_minimum(ctx, it, v, Form.num(1), lambda t: ook_pe(off, on, sv[0], sv[1], t), ls[0], off, on)
             ctx.check("C13.3", ok, fi, rets[0].node, case, "min over linspace(mu_OFF, mu_ON, n) of the OOK error probability", "kernel differs from min_r 1/2[Q((mu_ON-r)/s1)+Q((r-mu_OFF)/s0)]")
         elif dec == "hard":
             ls = [r for r in it.calls if r.callee == "numpy.linspace"]
             r = ls[0].result if len(ls) == 1 else None
             fac = M / (2 * (M - 1))
-            want = fac * mk_fn("min", [ppm_hard(off, on, sv[0], sv[1], r, M)]) if r is not None else None
-            ok = want is not None and v == want and ls[0].args[0] == off and ls[0].args[1] == on
+            ok = r is not None and ls[0].args[0] == off and ls[0].args[1] == on and _is_grid_minimum(ctx, it, v, fac, lambda t: ppm_hard(off, on, sv[0], sv[1], t, M), ls[0], off, on)
             ctx.check("C13.3", ok, fi, rets[0].node, case, "M/(2(M-1)) * min over the grid of the hard-decision symbol error", "kernel differs from the PPM hard-decision formula")
         else:
             _check_soft(ctx, fi, it, v, rets[0].node, case, on - off, sv[0], sv[1], M, M / (2 * (M - 1)))
+
+
+def _is_grid_minimum(ctx, it, v, fac, objective, grid_rec, off, on):
+    """v is fac * (the least of the objective over the grid linspace(off, on, n)), possibly lowered further by values of the SAME
+    objective at other thresholds inside [off, on] (a bounded scalar minimiser started around the best grid point): the result is
+    then still an error probability of an admissible threshold (never below the true minimum) and never above the grid minimum"""
+    r = grid_rec.result
+    gmin = mk_fn("min", [objective(r)])
+    if v == fac * gmin:
+        return True
+    refin = [c for c in it.calls if c.callee in ("scipy.optimize.minimize_scalar",)]
+    if not refin:
+        return False
+    extra = []
+    x = S("_threshold_")
+    for c in refin:
+        f = c.args[0] if c.args else c.kwargs.get("fun")
+        b = c.kwargs.get("bounds")
+        if not (isinstance(f, FuncV) and isinstance(b, TupleV) and len(b.items) == 2):
+            return False
+        got = Interp(ctx.pkg).call_funcv(f, [x])
+        if not (isinstance(got, Form) and got == objective(x)):
+            return False                                     # refines another function than the one the grid samples
+        for e in b.items:
+            a = e.single_atom() if isinstance(e, Form) else None
+            inside = (isinstance(e, Form) and (e == off or e == on)) or (a is not None and a[0] == "idx" and isinstance(a[1], Form) and a[1] == r)
+            if not inside:
+                return False                                 # the refinement may leave [off, on]
+        extra.append(mk_attr(c.result, "fun"))
+    for perm in itertools.permutations([gmin] + extra):
+        if v == fac * mk_fn("min", list(perm)):
+            return True
+    return False
 
 
 def _check_soft(ctx, fi, it, v, node, case, dmu, s0, s1, M, factor):
